@@ -122,7 +122,9 @@ def build(d):
 # -----------------------------------------------------------------------------------------------------------------
 
 WORDS = ["a", "Bc", "d e", "x", "yz", "&", "<", "a&b", "c<d", "-->", "e-->f", "&amp;", "é", "日本", " ", "  ", "\t", "q ", " r",
-         "1", "42", "f>g", "<3"]
+         "1", "42", "f>g", "<3",
+         # spaces that are not XML white space (kept as they are, wherever they stand), references spelled out in the text
+         "\u00a0", "n\u00a0b", "\u3000\u3000w", "v\u2003", "&#60;b&#62;", "&#x41;", "&nbsp;"]
 WORDS_NL = ["\n", " \n ", "s\nt"]        # only under xml:space=default (collapsed by the ISD)
 
 
@@ -310,14 +312,14 @@ def random_doc(rng, rich=True):
     if nreg:
       regions[reg].pop("b", None)
       regions[reg].pop("e", None)
-    t = Fraction(rng.choice([0, 3590, 35990, 359990, 3599990, 360000 * 3 - 10]) + rng.randint(0, 20))
+    t = Fraction(rng.choice([0, 3590, 35990, 359990, 359990, 2000000, 360000 * 3 - 10]) + rng.randint(0, 20))   # (milliseconds stay below 2^31)
     many = []
     for k in range(rng.randint(25, 70)):
       d = Fraction(rng.randint(1, 4000), 1000)
       words = " ".join(rng.choice(["lorem", "ipsum", "dolor", "sit", "amet", "x", "consectetur"]) for _ in range(rng.choice([1, 3, 8, 40])))
       kids = [{"k": "span", "sp": "", "st": rng.choice([{}, {}, {"fw": "bold"}, {"col": "red"}]), "kids": [{"k": "t", "s": "%d %s" % (k, words)}]}]
-      for _ in range(rng.choice([0, 0, 1, 6])):
-        kids += [{"k": "br"}, {"k": "span", "sp": "", "st": {}, "kids": [{"k": "t", "s": "line " + words[:12]}]}]
+      for _ in range(rng.choice([0, 0, 1, 6, 14])):
+        kids += [{"k": "br"}] * rng.choice([1, 1, 2, 3]) + [{"k": "span", "sp": "", "st": {}, "kids": [{"k": "t", "s": "line " + words[:12]}]}]
       many.append({"k": "p", "reg": reg, "sp": "", "st": {}, "b": tstr(t), "e": tstr(t + d), "kids": kids})
       t = t + d + rng.choice([0, 0, Fraction(1, 2), 3])
     body.append({"k": "div", "reg": -1, "kids": many})
